@@ -101,6 +101,9 @@ def parseCallMode : List String → Option CallMode
 def parseKind (kind : String) (attrs : List String) : Option IKind :=
   match kind, attrs with
   | "alloc", [h] => do pure (.alloc (← parseBool h))
+  | "alloc", [h, pos] => do
+    let _ ← pos.toNat?
+    pure (.alloc (← parseBool h))
   | "phi", [] => some .phi
   | "call", a => do pure (.call (← parseCallMode a))
   | "defer", a => do pure (.defer (← parseCallMode a))
